@@ -52,6 +52,10 @@ def cases(tier, seed):
         c.pop("ref", None)
         yield c
     yield from gen_c02.all_families(tier)
+    # the legal sequences of the scope machine (mv/scopeseq.py): definitions with and without value, shadowing, blocks
+    from .. import scopeseq
+    for c in scopeseq.cases("C01", "quick"):
+        yield {"id": "seq:" + c["id"], "family": "c02.seq." + c["family"].split(".")[-1], "src": c["src"], "tags": c["tags"][:3]}
     for path, src in corpus.files():
         yield {"id": "corpus:" + path, "family": "c02.corpus", "src": src, "tags": ["corpus:" + path]}
     yield from mutation_cases(tier)
